@@ -16,7 +16,8 @@ def run(tier, seed):
                           dict(base, MaxDepth=dA), dict(base, MaxDepth=dB),
                           dict(base, MaxDepth=5), nsetup=5, walk_len=10,
                           nwalks=150 if quick else 1500, seed=seed, clauses=CLAUSES,
-                          extra_B=[{"Scenario": '"c18b"', "MaxDepth": 2 if quick else 3}])
+                          extra_B=[{"Scenario": '"c18b"', "MaxDepth": 2 if quick else 3},
+                                   {"Scenario": '"c18c"', "MaxDepth": 2 if quick else 3}])
 
 
 def replay(path):
